@@ -49,12 +49,12 @@ def run(ck: Check) -> None:
     for name in VALIDATORS:
         for v in K:
             cases.append(Case("check", [name, v], tag="validator-kind"))
-        for _ in range(40 if ck.thorough else 12):
+        for _ in range(ck.n(40, 12)):
             cases.append(Case("check", [name, gen.rand_json(rng, 3, [15])], tag="validator-json"))
     for name in PREDICATES:
         for v in K:
             cases.append(Case("is", [name, v], tag="predicate-kind"))
-        for _ in range(40 if ck.thorough else 12):
+        for _ in range(ck.n(40, 12)):
             cases.append(Case("is", [name, gen.rand_json(rng, 3, [15])], tag="predicate-json"))
     # structured validators with path mutations
     dels = {"root": gen.delegation([gen.key(1), gen.key(2)], 2), "key_mgr": gen.delegation([gen.key(3)], 1)}
@@ -86,7 +86,7 @@ def run(ck: Check) -> None:
     for v, t in entry_inputs(rng):
         cases.append(Case("vgpg", [v, k.hex, data], tag="vgpg-entry"))
     # verify_signable: each argument position
-    for i in range(200 if ck.thorough else 50):
+    for i in range(ck.n(200, 50)):
         gpg = bool(i % 2)
         c = envgen.signable_case(rng, gpg)
         env, auth = c["env"], c["auth"]
@@ -104,7 +104,7 @@ def run(ck: Check) -> None:
             a2[rng.randrange(len(a2))] = rng.choice([None, 5, "zz", a2[0].upper(), [a2[0]], a2[0][:-1]])
             cases.append(Case("vsignable", [env, a2, 1, gpg], tag="vsignable-badkeylist", group=i))
     # verify_delegation / verify_root: path mutations of either argument and kinds
-    for i in range(150 if ck.thorough else 40):
+    for i in range(ck.n(150, 40)):
         gpg = bool(i % 2)
         role, u, t = deleg_case(rng, gpg)
         for which, doc in ((1, u), (2, t)):
@@ -141,7 +141,7 @@ def run(ck: Check) -> None:
                           "impl": r.impl, "class_of_input": r.case.tag}, f"family:{r.case.op}:{r.impl}:{r.case.tag}")
     # the four named mappings on single-fault inputs
     named = []
-    for i in range(60 if ck.thorough else 20):
+    for i in range(ck.n(60, 20)):
         ks = [gen.key(j) for j in rng.sample(range(8), 2)]
         t = gen.envelope(gen.root_md(ks, 2, [gen.key(8)], 1, version=3))
         km = gen.sign_env(gen.envelope(gen.delegating_md("key_mgr", {"pkg_mgr": gen.delegation([gen.key(9)], 1)})), [gen.key(8)], False)
